@@ -180,6 +180,12 @@ class walk_tree(object):
                         if self._is_loop_match(child, seg_data, errh, seg_count, cur_line, ls_id):
                             (node_seg, push_node_list) = self._goto_seg_match(child, seg_data, errh, seg_count, cur_line, ls_id)
                             return (node_seg, pop_node_list, push_node_list)  # segment node
+                        elif getattr(child, 'type', None) == 'wrapper' and self.counter.get_count(child.x12path) < 1:
+                            # a table (HEADER, DETAIL, FOOTER) is no X12 loop: without its first
+                            # segment, the segments that follow still belong to it
+                            (node_seg, push_node_list) = self._enter_wrapper_late(child, seg_data, errh, seg_count, cur_line, ls_id)
+                            if node_seg is not None:
+                                return (node_seg, pop_node_list, push_node_list)  # segment node
             # End for ord1 in pos_keys
             if node.is_map_root():  # If at root and we haven't found the segment yet.
                 walk_tree._seg_not_found_error(orig_node, seg_data,
@@ -276,6 +282,50 @@ class walk_tree(object):
                     fake_seg = pyx12.segment.Segment('%s' % (first_child_node.id), '~', '*', ':')
                     err_str = 'Mandatory loop "%s" (%s) missing' % (child.name, child.id)
                     self.mandatory_segs_missing.append((first_child_node, fake_seg, '3', err_str, seg_count, cur_line, ls_id))
+
+    def _enter_wrapper_late(self, loop_node, seg_data, errh, seg_count, cur_line, ls_id):
+        """
+        Try to place the segment among the children of a wrapper loop that come after
+        its first segment.  The first segment, if required, is reported missing.
+
+        @param loop_node: The wrapper loop, not yet entered
+        @type loop_node: L{node<map_if.loop_if>}
+        @return: The matching segment node and a list of the push loop nodes
+        @rtype: (L{node<map_if.segment_if>}, [L{node<map_if.loop_if>}])
+        """
+        first_node = loop_node.get_first_node()
+        if first_node is None or not first_node.is_segment():
+            return (None, [])
+        saved = self.mandatory_segs_missing
+        # in place of 'Mandatory loop missing' for the wrapper
+        self.mandatory_segs_missing = [x for x in saved if x[0] != first_node]
+        if first_node.usage == 'R':
+            fake_seg = pyx12.segment.Segment('%s' % (first_node.id), '~', '*', ':')
+            err_str = 'Mandatory segment "%s" (%s) missing' % (first_node.name, first_node.id)
+            self.mandatory_segs_missing.append((first_node, fake_seg, '3', err_str, seg_count, cur_line, ls_id))
+        for ord1 in sorted(loop_node.pos_map):
+            for child in loop_node.pos_map[ord1]:
+                if child is first_node:
+                    continue
+                if child.is_segment():
+                    if child.is_match(seg_data):
+                        self._check_loop_usage(loop_node, seg_data, seg_count, cur_line, ls_id, errh)
+                        self.counter.increment(child.x12path)
+                        self._check_seg_usage(child, seg_data, seg_count, cur_line, ls_id, errh)
+                        self.mandatory_segs_missing = [x for x in self.mandatory_segs_missing if x[0] != child]
+                        self._flush_mandatory_segs(errh, child.pos)
+                        return (child, [loop_node])
+                    elif child.usage == 'R':
+                        fake_seg = pyx12.segment.Segment('%s' % (child.id), '~', '*', ':')
+                        err_str = 'Mandatory segment "%s" (%s) missing' % (child.name, child.id)
+                        self.mandatory_segs_missing.append((child, fake_seg, '3', err_str, seg_count, cur_line, ls_id))
+                elif child.is_loop():
+                    if self._is_loop_match(child, seg_data, errh, seg_count, cur_line, ls_id):
+                        self._check_loop_usage(loop_node, seg_data, seg_count, cur_line, ls_id, errh)
+                        (node_seg, push1) = self._goto_seg_match(child, seg_data, errh, seg_count, cur_line, ls_id)
+                        return (node_seg, [loop_node] + push1)
+        self.mandatory_segs_missing = saved
+        return (None, [])
 
     def _flush_mandatory_segs(self, errh, cur_pos=None):
         """
